@@ -29,7 +29,38 @@ LEVEL = "proof"
 CUSTOM = {
     "luna_pinyin.custom.yaml": "patch:\n  translator/enable_user_dict: false\n",
     "cangjie5.custom.yaml": "patch:\n  translator/enable_user_dict: false\n",
+    # round 3: a third schema that SHARES luna_pinyin's dictionary but has its own prism (spelling algebra of its own) -
+    # the common shape of real installations (double pinyin / fuzzy pinyin on one dictionary), absent from data/minimal.
+    # What one session gets from the components' weak-pointer pools must not depend on what another session holds alive.
+    "default.custom.yaml": "patch:\n  schema_list:\n    - schema: luna_pinyin\n    - schema: cangjie5\n    - schema: luna_zcs\n",
+    "luna_zcs.schema.yaml": """schema:
+  schema_id: luna_zcs
+  name: zcs
+  version: "1"
+engine:
+  processors: [ascii_composer, recognizer, key_binder, speller, punctuator, selector, navigator, express_editor]
+  segmentors: [ascii_segmentor, matcher, abc_segmentor, punct_segmentor, fallback_segmentor]
+  translators: [punct_translator, script_translator]
+  filters: [uniquifier]
+speller:
+  alphabet: zyxwvutsrqponmlkjihgfedcba
+  delimiter: " '"
+  algebra:
+    - derive/^([zcs])h/$1/
+    - derive/^n/l/
+translator:
+  dictionary: luna_pinyin
+  prism: luna_zcs
+  enable_user_dict: false
+punctuator:
+  import_preset: default
+key_binder:
+  import_preset: default
+recognizer:
+  import_preset: default
+""",
 }
+SCHEMAS = ["luna_pinyin", "cangjie5", "luna_zcs"]
 
 REJECTED = {
     "key": "ret 0", "simulate": "ret 0", "select": "ret 0", "select_on_page": "ret 0", "highlight": "ret 0", "page": "ret 0",
@@ -70,10 +101,12 @@ def gen_ops_live(rnd):
         lambda: ["get_option %s" % rnd.choice(["ascii_mode", "full_shape", "simplification", "ascii_punct", "verif_x", "verif_y"])],
         lambda: ["set_property %s v%d" % (rnd.choice(["p1", "p2"]), rnd.randint(0, 99))],
         lambda: ["get_property %s" % rnd.choice(["p1", "p2"])],
-        lambda: ["select_schema %s" % rnd.choice(["luna_pinyin", "cangjie5"]), "get_schema", "get_status"],
+        lambda: ["select_schema %s" % rnd.choice(SCHEMAS), "get_schema", "get_status"],
         lambda: ["set_input %s" % "".join(rnd.choice("abcdefghinouz") for _ in range(rnd.randint(1, 8))).encode().hex(), "get_context"],
         lambda: ["get_input"], lambda: ["set_caret %d" % rnd.randint(0, 9), "get_input"],
         lambda: ["simulate %s" % rnd.choice(["ni{space}", "hao{Return}", "zhong{BackSpace}guo", "{Escape}", "a{Left}b"]), "get_context", "get_commit"],
+        # spellings that only the third schema's own prism knows (zh->z, n->l): what they yield tells which prism a session got
+        lambda: ["simulate %s" % rnd.choice(["zong", "cang", "si", "li", "lihao", "zongguo"]), "get_context", "key 32 0", "get_commit"],
     ]
     return rnd.choice(choices)()
 
@@ -100,7 +133,7 @@ def gen_script(rnd, nsess, length):
                 others = sorted(k for k, v in live.items() if v and k != lg)
                 if others and rnd.random() < 0.5:
                     o = rnd.choice(others)
-                    lines.append("%d select_schema %s" % (o, rnd.choice(["luna_pinyin", "cangjie5"])))
+                    lines.append("%d select_schema %s" % (o, rnd.choice(SCHEMAS)))
                     if rnd.random() < 0.5:
                         lines.append("%d set_option %s %d" % (o, rnd.choice(["ascii_mode", "full_shape", "ascii_punct", "simplification"]), rnd.randint(0, 1)))
                     for op in ("get_schema", "get_status", "key 110 0", "key 105 0", "get_context"):
@@ -116,8 +149,23 @@ def gen_script(rnd, nsess, length):
         else:
             r = rnd.random()
             if r < 0.06:
+                # round 3: a session may be destroyed with state left behind (unread commit text, a composition in progress,
+                # options, properties, an open paired quote); a session created right afterwards must look brand new - its
+                # first reads are all a client needs to see what leaked
+                if rnd.random() < 0.6:
+                    for op in rnd.sample(["simulate ni{space}", "simulate hao{space}", "key 110 0", "set_option verif_x 1", "set_option ascii_punct 1",
+                                          "set_property p1 left", "key 34 0", "set_option full_shape 1", "simulate zhong"], rnd.randint(1, 4)):
+                        lines.append("%d %s" % (lg, op))
                 lines.append("%d destroy" % lg)
                 live[lg] = False
+                if rnd.random() < 0.7:
+                    free = [k for k in range(1, nsess + 1) if not live.get(k)]
+                    nk = rnd.choice(free)
+                    lines.append("%d create" % nk)
+                    live[nk] = True
+                    ever.add(nk)
+                    for op in PROBE_READS:
+                        lines.append("%d %s" % (nk, op))
             elif r < 0.10:
                 lines.append("%d find" % lg)
             elif r < 0.115:
